@@ -85,6 +85,9 @@ func c05World(c *Ctx) *refgraph.World {
 		}
 		defs = defs.Set("plain", wire.ObjV(wire.M("type", wire.StrV("string")), wire.M("description", wire.StrV(fmt.Sprintf("plain-of-doc%d", di)))))
 		doc = doc.Set("definitions", defs).Set("parameters", params).Set("responses", resps)
+		// shared elements kept under vendor extensions whose keys differ only by letter case
+		doc = doc.Set("X-Shared", wire.ObjV(wire.M("Thing", wire.ObjV(wire.M("type", wire.StrV("integer")), wire.M("description", wire.StrV(fmt.Sprintf("capitalised container of doc%d", di)))))))
+		doc = doc.Set("x-shared", wire.ObjV(wire.M("Thing", wire.ObjV(wire.M("type", wire.StrV("string")), wire.M("description", wire.StrV(fmt.Sprintf("lower-case container of doc%d", di)))))))
 		if di == 0 {
 			doc = doc.Set("paths", pis)
 		} else {
@@ -126,6 +129,8 @@ func c05Targets(w *refgraph.World) []c05Target {
 			}
 			out = append(out, c05Target{u, []string{sec.name, "does-not-exist"}, sec.kind})
 		}
+		out = append(out, c05Target{u, []string{"X-Shared", "Thing"}, "schema"}, c05Target{u, []string{"x-shared", "Thing"}, "schema"},
+			c05Target{u, []string{"X-SHARED", "Thing"}, "schema"})
 	}
 	return out
 }
